@@ -402,13 +402,33 @@ theorem mark_mono (p : Pool) (ip a : Nat) (h : a ∈ p.unavailable) : a ∈ (p.m
 
 /-! ### server state -/
 
+/-- What the configuration must guarantee about the Nexus API's answers (an ASSUMPTION about an external
+    system): it never gives one address to two MACs, and its addresses are not among the host addresses the local
+    (walled-garden) pool hands out.  Trivially true when the HTTP allocator is not configured. -/
+structure NexusOk (c : Cfg) : Prop where
+  inj : ∀ k k' a, c.nexusLookup k = some a → c.nexusLookup k' = some a → k = k'
+  apart : ∀ k a, c.nexusLookup k = some a → c.usable a = false
+
+theorem nexusOk_off {c : Cfg} (h : c.nexusMode = false) : NexusOk c := by
+  constructor <;> intro k <;> simp [Cfg.nexusLookup, h]
+
 structure Bind4 (s : State) : Prop where
   pool : PoolInv s.cfg s.pool
-  /-- every lease is backed by the pool binding of the same MAC -/
-  held : ∀ k l, lookup s.leases k = some l → lookup s.pool.allocated k = some l.ip
+  nex : NexusOk s.cfg
+  /-- every lease is backed by the pool binding of the same MAC, or is that MAC's Nexus allocation -/
+  held : ∀ k l, lookup s.leases k = some l →
+    lookup s.pool.allocated k = some l.ip ∨ s.cfg.nexusLookup k = some l.ip
 
-theorem bind4_init (c : Cfg) : Bind4 (init c) :=
-  ⟨poolInv_init c, by intro k l h; simp [init] at h⟩
+theorem bind4_init (c : Cfg) (hN : NexusOk c) : Bind4 (init c) :=
+  ⟨poolInv_init c, hN, by intro k l h; simp [init] at h⟩
+
+/-- a Nexus allocation is never an address the pool holds for anybody -/
+theorem nexus_not_allocated {s : State} (hI : Bind4 s) {k ip : Nat} (h : s.cfg.nexusLookup k = some ip)
+    (k' : Nat) : lookup s.pool.allocated k' ≠ some ip := by
+  intro h2
+  have a := (hI.pool.allocOk _ _ h2).1
+  have b := hI.nex.apart _ _ h
+  rw [a] at b; simp at b
 
 theorem existing_of_noHit {s : State} {m : Msg} (h : circuitHit s m = false) :
     existing s m = lookup s.leases m.mac := by
@@ -462,20 +482,12 @@ theorem step_cfg (s : State) (op : Op) : (step s op).1.cfg = s.cfg := by
   cases op with
   | discover m =>
     simp only [step, discover]
-    split
-    · split
-      · rfl
-      · split <;> rfl
-    · split <;> rfl
+    repeat' split
+    all_goals rfl
   | request m =>
     simp only [step, request]
-    split
-    · split
-      · rfl
-      · simp [commit]
-    · split
-      · rfl
-      · split <;> rfl
+    repeat' split
+    all_goals first | rfl | simp [commit]
   | release mac =>
     simp only [step, release]
     split <;> rfl
@@ -487,6 +499,7 @@ theorem step_cfg (s : State) (op : Op) : (step s op).1.cfg = s.cfg := by
   | inform mac => rfl
   | advance dt => rfl
   | cleanup order => simp only [step, cleanup]; exact foldl_expireOne_cfg _ _ _
+  | cleanupApply t macs => simp only [step, applyList]; exact foldl_expireOne_cfg _ _ _
 
 theorem run_cfg (s : State) (ops : List Op) : (run s ops).cfg = s.cfg := by
   induction ops generalizing s with
@@ -524,27 +537,18 @@ theorem poolInv_step {s : State} (hI : PoolInv s.cfg s.pool) (op : Op) :
   | discover m =>
     have hA := poolInv_allocate hI m.mac
     simp only [step, discover]
-    split
-    · split
-      · exact hI
-      · split
-        · rename_i p ip heq; rw [heq] at hA; exact hA
-        · exact hI
-    · split
-      · rename_i p ip heq; rw [heq] at hA; exact hA
-      · exact hI
+    repeat' split
+    all_goals first
+      | exact hI
+      | (rename_i p ip heq; rw [heq] at hA; exact hA)
   | request m =>
+    have hR := poolInv_reserve hI m.mac (requestedOf m)
     simp only [step, request]
-    split
-    · split
-      · exact hI
-      · simp only [commit, dropStale_cfg, dropStale_pool]; exact hI
-    · split
-      · exact hI
-      · have hR := poolInv_reserve hI m.mac (requestedOf m)
-        split
-        · rename_i p heq; rw [heq] at hR; exact hR
-        · exact hI
+    repeat' split
+    all_goals first
+      | exact hI
+      | (simp only [commit, dropStale_cfg, dropStale_pool]; exact hI)
+      | (rename_i p heq; rw [heq] at hR; exact hR)
   | release mac =>
     simp only [step, release]
     split
@@ -560,6 +564,7 @@ theorem poolInv_step {s : State} (hI : PoolInv s.cfg s.pool) (op : Op) :
   | inform mac => exact hI
   | advance dt => exact hI
   | cleanup order => simp only [step, cleanup]; exact poolInv_foldl_expireOne _ _ hI
+  | cleanupApply t macs => simp only [step, applyList]; exact poolInv_foldl_expireOne _ _ hI
 
 theorem poolInv_run {s : State} (hI : PoolInv s.cfg s.pool) (ops : List Op) :
     PoolInv (run s ops).cfg (run s ops).pool := by
@@ -572,18 +577,21 @@ theorem poolInv_run {s : State} (hI : PoolInv s.cfg s.pool) (ops : List Op) :
 theorem bind4_drop {s : State} (hI : Bind4 s) {mac : Nat} {l : Lease} (hl : lookup s.leases mac = some l)
     (byCid' : AMap Nat Lease) :
     Bind4 { s with leases := erase s.leases mac, byCid := byCid', pool := s.pool.release l.ip } := by
-  have hp := hI.held _ _ hl
-  refine ⟨(poolInv_release hI.pool _).1, ?_⟩
+  refine ⟨(poolInv_release hI.pool _).1, hI.nex, ?_⟩
   intro k l' h
   simp only [lookup_erase] at h
   by_cases e : k = mac
   · simp [e] at h
   · simp only [e, if_false] at h
-    have := hI.held _ _ h
-    simp only
-    rw [release_of_holder hI.pool hp]
-    simp only [lookup_erase, e, if_false]
-    exact this
+    rcases hI.held _ _ h with this | this
+    · left
+      simp only
+      rcases hI.held _ _ hl with hp | hn
+      · rw [release_of_holder hI.pool hp]
+        simp only [lookup_erase, e, if_false]
+        exact this
+      · rw [release_nobody (nexus_not_allocated hI hn)]; exact this
+    · right; exact this
 
 theorem bind4_expireOne {s : State} (hI : Bind4 s) (t mac : Nat) : Bind4 (expireOne t s mac) := by
   unfold expireOne
@@ -601,9 +609,10 @@ theorem bind4_foldl_expireOne (t : Nat) (l : List Nat) {s : State} (hI : Bind4 s
   | cons a rest ih => simp only [List.foldl_cons]; exact ih (bind4_expireOne hI t a)
 
 theorem bind4_commit {s : State} (hI : Bind4 s) (m : Msg) (ip : Nat) (cid : Option Nat)
-    (hp : lookup s.pool.allocated m.mac = some ip) : Bind4 (commit s m ip cid).1 := by
+    (hp : lookup s.pool.allocated m.mac = some ip ∨ s.cfg.nexusLookup m.mac = some ip) :
+    Bind4 (commit s m ip cid).1 := by
   unfold commit
-  refine ⟨hI.pool, ?_⟩
+  refine ⟨hI.pool, hI.nex, ?_⟩
   intro k l h
   simp only [lookup_insert] at h
   by_cases e : k = m.mac
@@ -616,33 +625,28 @@ theorem bind4_step {s : State} (hI : Bind4 s) (op : Op) (hn : hits s op = false)
     Bind4 (step s op).1 := by
   cases op with
   | discover m =>
-    simp only [hits] at hn
-    have hex := existing_of_noHit hn
     have hA := poolInv_allocate hI.pool m.mac
     have fresh : ∀ p ip, s.pool.allocate m.mac = (p, some ip) → Bind4 { s with pool := p } := by
       intro p ip heq
-      refine ⟨by rw [heq] at hA; exact hA, ?_⟩
+      refine ⟨by rw [heq] at hA; exact hA, hI.nex, ?_⟩
       intro k l h
-      have h0 := hI.held _ _ h
-      by_cases e : k = m.mac
-      · have := allocate_self (p := s.pool) (mac := m.mac) (a := l.ip) (by rw [← e]; exact h0)
-        rw [this] at heq
-        simp only [Prod.mk.injEq] at heq
-        rw [← heq.1]; exact h0
-      · have := allocate_other (p := s.pool) e
-        rw [heq] at this
-        simp only at this ⊢
-        rw [this]; exact h0
+      rcases hI.held _ _ h with h0 | h0
+      · left
+        by_cases e : k = m.mac
+        · have := allocate_self (p := s.pool) (mac := m.mac) (a := l.ip) (by rw [← e]; exact h0)
+          rw [this] at heq
+          simp only [Prod.mk.injEq] at heq
+          rw [← heq.1]; exact h0
+        · have := allocate_other (p := s.pool) e
+          rw [heq] at this
+          simp only at this ⊢
+          rw [this]; exact h0
+      · right; exact h0
     simp only [step, discover]
-    split
-    · split
-      · exact hI
-      · split
-        · rename_i p ip heq; exact fresh p ip heq
-        · exact hI
-    · split
-      · rename_i p ip heq; exact fresh p ip heq
-      · exact hI
+    repeat' split
+    all_goals first
+      | exact hI
+      | (rename_i p ip heq; exact fresh p ip heq)
   | request m =>
     simp only [hits] at hn
     have hex := existing_of_noHit hn
@@ -657,32 +661,45 @@ theorem bind4_step {s : State} (hI : Bind4 s) (op : Op) (hn : hits s op = false)
           · exact e
           · exact absurd e hne
         rw [hex] at hl
-        have hD : Bind4 (dropStale s l (match m.cid with | some c => some c | none => l.cid)) :=
+        have hD : ∀ c, Bind4 (dropStale s l c) := fun c =>
           ⟨by simp only [dropStale_cfg, dropStale_pool]; exact hI.pool,
-           by intro k l' h; simp only [dropStale_leases, dropStale_pool] at h ⊢; exact hI.held _ _ h⟩
-        apply bind4_commit hD
-        simp only [dropStale_pool]
+           by simp only [dropStale_cfg]; exact hI.nex,
+           by intro k l' h; simp only [dropStale_leases, dropStale_pool, dropStale_cfg] at h ⊢; exact hI.held _ _ h⟩
+        apply bind4_commit (hD _)
+        simp only [dropStale_pool, dropStale_cfg]
         rw [← hne']; exact hI.held _ _ hl
     · rename_i hnone
       split
-      · exact hI
-      · split
-        · rename_i p heq
-          have hR := poolInv_reserve hI.pool m.mac (requestedOf m)
-          have hT := reserve_true (p := s.pool) (mac := m.mac) (ip := requestedOf m) (by rw [heq])
-          rw [heq] at hR hT
-          have hB : Bind4 { s with pool := p } := by
-            refine ⟨hR, ?_⟩
-            intro k l h
-            have h0 := hI.held _ _ h
-            by_cases e : k = m.mac
-            · rw [hex] at hnone; rw [e] at h; simp only at h; rw [hnone] at h; simp at h
-            · have := reserve_other (p := s.pool) (mac := m.mac) (ip := requestedOf m) e
-              rw [heq] at this
-              simp only at this ⊢
-              rw [this]; exact h0
-          exact bind4_commit hB m _ _ hT
+      · rename_i nip hnx
+        split
         · exact hI
+        · rename_i hne
+          have : nip = requestedOf m := by
+            by_cases e : nip = requestedOf m
+            · exact e
+            · exact absurd e hne
+          exact bind4_commit hI m _ _ (Or.inr (by rw [← this]; exact hnx))
+      · split
+        · exact hI
+        · split
+          · rename_i p heq
+            have hR := poolInv_reserve hI.pool m.mac (requestedOf m)
+            have hT := reserve_true (p := s.pool) (mac := m.mac) (ip := requestedOf m) (by rw [heq])
+            rw [heq] at hR hT
+            have hB : Bind4 { s with pool := p } := by
+              refine ⟨hR, hI.nex, ?_⟩
+              intro k l h
+              rcases hI.held _ _ h with h0 | h0
+              · left
+                by_cases e : k = m.mac
+                · rw [hex] at hnone; rw [e] at h; simp only at h; rw [hnone] at h; simp at h
+                · have := reserve_other (p := s.pool) (mac := m.mac) (ip := requestedOf m) e
+                  rw [heq] at this
+                  simp only at this ⊢
+                  rw [this]; exact h0
+              · right; exact h0
+            exact bind4_commit hB m _ _ (Or.inl hT)
+          · exact hI
   | release mac =>
     simp only [step, release]
     split
@@ -696,12 +713,13 @@ theorem bind4_step {s : State} (hI : Bind4 s) (op : Op) (hn : hits s op = false)
       split
       · exact hI
       · have hD := bind4_drop hI hl (dropIndex s.byCid l)
-        refine ⟨poolInv_release_mark hI.pool _, ?_⟩
+        refine ⟨poolInv_release_mark hI.pool _, hI.nex, ?_⟩
         intro k l' h
         exact hD.held k l' h
   | inform mac => exact hI
-  | advance dt => exact ⟨hI.pool, hI.held⟩
+  | advance dt => exact ⟨hI.pool, hI.nex, hI.held⟩
   | cleanup order => simp only [step, cleanup]; exact bind4_foldl_expireOne _ _ hI
+  | cleanupApply t macs => simp only [step, applyList]; exact bind4_foldl_expireOne _ _ hI
 
 theorem bind4_run {s : State} (hI : Bind4 s) (ops : List Op) (hn : noCircuitHit s ops = true) :
     Bind4 (run s ops) := by
@@ -744,27 +762,18 @@ theorem step_unavailable_mono (s : State) (op : Op) (a : Nat) (h : a ∈ s.pool.
   | discover m =>
     have hA := allocate_unavailable s.pool m.mac
     simp only [step, discover]
-    split
-    · split
-      · exact h
-      · split
-        · rename_i p ip heq; rw [heq] at hA; simp only at hA ⊢; rw [hA]; exact h
-        · exact h
-    · split
-      · rename_i p ip heq; rw [heq] at hA; simp only at hA ⊢; rw [hA]; exact h
-      · exact h
+    repeat' split
+    all_goals first
+      | exact h
+      | (rename_i p ip heq; rw [heq] at hA; simp only at hA ⊢; rw [hA]; exact h)
   | request m =>
+    have hR := reserve_unavailable s.pool m.mac (requestedOf m)
     simp only [step, request]
-    split
-    · split
-      · exact h
-      · simp only [commit, dropStale_pool]; exact h
-    · split
-      · exact h
-      · have hR := reserve_unavailable s.pool m.mac (requestedOf m)
-        split
-        · rename_i p heq; rw [heq] at hR; simp only [commit] at hR ⊢; rw [hR]; exact h
-        · exact h
+    repeat' split
+    all_goals first
+      | exact h
+      | (simp only [commit, dropStale_pool]; exact h)
+      | (rename_i p heq; rw [heq] at hR; simp only [commit] at hR ⊢; rw [hR]; exact h)
   | release mac =>
     simp only [step, release]
     split
@@ -780,6 +789,7 @@ theorem step_unavailable_mono (s : State) (op : Op) (a : Nat) (h : a ∈ s.pool.
   | inform mac => exact h
   | advance dt => exact h
   | cleanup order => simp only [step, cleanup]; rw [foldl_expireOne_unavailable]; exact h
+  | cleanupApply t macs => simp only [step, applyList]; rw [foldl_expireOne_unavailable]; exact h
 
 theorem run_unavailable_mono (s : State) (ops : List Op) (a : Nat) (h : a ∈ s.pool.unavailable) :
     a ∈ (run s ops).pool.unavailable := by
@@ -813,8 +823,15 @@ theorem expireOne_other_lease (t : Nat) (s : State) {mac k : Nat} (hk : k ≠ ma
     · simp [lookup_erase, hk]
     · rfl
 
+/-- a lease on a host address of the local pool is backed by the pool (not by Nexus) -/
+theorem held_local {s : State} (hI : Bind4 s) {k : Nat} {l : Lease} (hl : lookup s.leases k = some l)
+    (hloc : s.cfg.usable l.ip = true) : lookup s.pool.allocated k = some l.ip := by
+  rcases hI.held _ _ hl with h | h
+  · exact h
+  · have := hI.nex.apart _ _ h; rw [hloc] at this; simp at this
+
 theorem foldl_expire_frees (t : Nat) (l : List Nat) {s : State} (hI : Bind4 s) {mac : Nat} {le : Lease}
-    (hl : lookup s.leases mac = some le) (hexp : t > le.exp) (hm : mac ∈ l) :
+    (hl : lookup s.leases mac = some le) (hloc : s.cfg.usable le.ip = true) (hexp : t > le.exp) (hm : mac ∈ l) :
     le.ip ∈ (l.foldl (expireOne t) s).pool.avail := by
   induction l generalizing s with
   | nil => simp at hm
@@ -825,13 +842,171 @@ theorem foldl_expire_frees (t : Nat) (l : List Nat) {s : State} (hI : Bind4 s) {
       apply foldl_expireOne_avail_mono
       unfold expireOne
       simp only [hl, hexp, if_true]
-      exact release_avail (hI.held _ _ hl)
+      exact release_avail (held_local hI hl hloc)
     · have hm' : mac ∈ rest := by
         rcases List.mem_cons.mp hm with h | h
         · exact absurd h.symm e
         · exact h
-      apply ih (bind4_expireOne hI t b) _ hm'
+      apply ih (bind4_expireOne hI t b) _ (by rw [expireOne_cfg]; exact hloc) hm'
       rw [expireOne_other_lease t s (fun h => e h.symm)]
       exact hl
+
+/-! ### the split cleanup -/
+
+/-- the removal loop never touches a lease that is not expired at the scan time: a lease renewed between the scan
+    and the removal survives -/
+theorem applyList_spares (t : Nat) (macs : List Nat) (s : State) (mac : Nat) (l : Lease)
+    (hl : lookup s.leases mac = some l) (hlive : ¬ t > l.exp) :
+    lookup (applyList t s macs).leases mac = some l := by
+  unfold applyList
+  induction macs generalizing s with
+  | nil => exact hl
+  | cons b rest ih =>
+    simp only [List.foldl_cons]
+    apply ih
+    by_cases e : mac = b
+    · subst e
+      unfold expireOne
+      simp only [hl, hlive, if_false]
+    · rw [expireOne_other_lease t s e]; exact hl
+
+/-- an undisturbed pass is the scan followed at once by the removal -/
+theorem expireOne_skip (t : Nat) (s : State) (mac : Nat)
+    (h : (match lookup s.leases mac with | some l => decide (t > l.exp) | none => false) = false) :
+    expireOne t s mac = s := by
+  unfold expireOne
+  cases e : lookup s.leases mac with
+  | none => rfl
+  | some l => simp only [e, decide_eq_false_iff_not] at h; simp [h]
+
+/-! ### facts about one REQUEST / DISCOVER used by the property theorems -/
+
+/-- pool-backed or Nexus-backed -/
+def Backed (s : State) (k ip : Nat) : Prop :=
+  lookup s.pool.allocated k = some ip ∨ s.cfg.nexusLookup k = some ip
+
+theorem backing_unique {s : State} (hI : Bind4 s) {k k' ip : Nat} (h : Backed s k ip) (h' : Backed s k' ip) :
+    k = k' := by
+  rcases h with h | h <;> rcases h' with h' | h'
+  · exact hI.pool.inj _ _ _ h h'
+  · exact absurd h (nexus_not_allocated hI h' k)
+  · exact absurd h' (nexus_not_allocated hI h k')
+  · exact hI.nex.inj _ _ _ h h'
+
+/-- a REQUEST changes nobody else's pool binding or lease -/
+theorem request_others (s : State) (m : Msg) (k : Nat) (hk : k ≠ m.mac) :
+    lookup (request s m).1.pool.allocated k = lookup s.pool.allocated k ∧
+    lookup (request s m).1.leases k = lookup s.leases k := by
+  have hR := reserve_other (p := s.pool) (mac := m.mac) (ip := requestedOf m) hk
+  unfold request
+  simp only []
+  cases e1 : existing s m with
+  | some l =>
+    by_cases e2 : l.ip = requestedOf m
+    · simp [e2, commit, lookup_insert, hk]
+    · simp [e2]
+  | none =>
+    cases e3 : s.cfg.nexusLookup m.mac with
+    | some nip =>
+      by_cases e4 : nip = requestedOf m
+      · simp [e4, commit, lookup_insert, hk]
+      · simp [e4]
+    | none =>
+      by_cases e5 : s.cfg.contains (requestedOf m) = true
+      · cases e6 : s.pool.reserve m.mac (requestedOf m) with
+        | mk p b =>
+          rw [e6] at hR
+          cases b with
+          | true => simp [e5, commit, lookup_insert, hk]; exact hR
+          | false => simp [e5]
+      · simp [e5]
+
+/-- an ACK creates (or replaces) the sender's lease on exactly the acknowledged address -/
+theorem ack_lease {s : State} {m : Msg} {ip lt : Nat} (h : (request s m).2 = .ack ip lt) :
+    ∃ l, lookup (request s m).1.leases m.mac = some l ∧ l.ip = ip := by
+  revert h
+  unfold request
+  simp only []
+  cases e1 : existing s m with
+  | some l =>
+    by_cases e2 : l.ip = requestedOf m
+    · simp only [e2, ne_eq, not_true_eq_false, if_false, commit, Reply.ack.injEq]
+      intro h; exact ⟨_, lookup_insert_self _ _ _, h.1⟩
+    · simp [e2]
+  | none =>
+    cases e3 : s.cfg.nexusLookup m.mac with
+    | some nip =>
+      by_cases e4 : nip = requestedOf m
+      · simp only [e4, ne_eq, not_true_eq_false, if_false, commit, Reply.ack.injEq]
+        intro h; exact ⟨_, lookup_insert_self _ _ _, h.1⟩
+      · simp [e4]
+    | none =>
+      by_cases e5 : s.cfg.contains (requestedOf m) = true
+      · cases e6 : s.pool.reserve m.mac (requestedOf m) with
+        | mk p b =>
+          cases b with
+          | true =>
+            simp only [e5, Bool.not_true, Bool.false_eq_true, if_false, commit, Reply.ack.injEq]
+            intro h; exact ⟨_, lookup_insert_self _ _ _, h.1⟩
+          | false => simp [e5]
+      · simp [e5]
+
+/-- whatever a DISCOVER offers is, afterwards, backed for the sender (no circuit-id path) -/
+theorem offer_backed {s : State} (hI : Bind4 s) {m : Msg} (hn : circuitHit s m = false) {ip lt : Nat}
+    (h : (discover s m).2 = .offer ip lt) : Backed (discover s m).1 m.mac ip := by
+  have hex := existing_of_noHit hn
+  have key : ∀ s' r, discover s m = (s', r) → r = .offer ip lt → Backed s' m.mac ip := by
+    intro s' r h1 h2
+    subst h2
+    unfold discover at h1
+    rw [hex] at h1
+    simp only at h1
+    cases e : lookup s.leases m.mac with
+    | some l =>
+      simp only [e] at h1
+      by_cases e2 : s.now < l.exp
+      · simp only [e2, if_true, Prod.mk.injEq, Reply.offer.injEq] at h1
+        obtain ⟨h1, h2, _⟩ := h1
+        subst h1; rw [← h2]; exact hI.held _ _ e
+      · simp only [e2, if_false] at h1
+        cases e3 : s.cfg.nexusLookup m.mac with
+        | some nip =>
+          simp only [e3, Prod.mk.injEq, Reply.offer.injEq] at h1
+          obtain ⟨h1, h2, _⟩ := h1
+          subst h1; rw [← h2]; exact Or.inr e3
+        | none =>
+          simp only [e3] at h1
+          cases e4 : s.pool.allocate m.mac with
+          | mk p r =>
+            cases r with
+            | none => simp [e4] at h1
+            | some a =>
+              simp only [e4, Prod.mk.injEq, Reply.offer.injEq] at h1
+              obtain ⟨h1, h2, _⟩ := h1
+              subst h1
+              have := allocate_some (p := s.pool) (mac := m.mac) (ip := a) (by rw [e4])
+              rw [e4] at this
+              rw [← h2]; exact Or.inl this
+    | none =>
+      simp only [e] at h1
+      cases e3 : s.cfg.nexusLookup m.mac with
+      | some nip =>
+        simp only [e3, Prod.mk.injEq, Reply.offer.injEq] at h1
+        obtain ⟨h1, h2, _⟩ := h1
+        subst h1; rw [← h2]; exact Or.inr e3
+      | none =>
+        simp only [e3] at h1
+        cases e4 : s.pool.allocate m.mac with
+        | mk p r =>
+          cases r with
+          | none => simp [e4] at h1
+          | some a =>
+            simp only [e4, Prod.mk.injEq, Reply.offer.injEq] at h1
+            obtain ⟨h1, h2, _⟩ := h1
+            subst h1
+            have := allocate_some (p := s.pool) (mac := m.mac) (ip := a) (by rw [e4])
+            rw [e4] at this
+            rw [← h2]; exact Or.inl this
+  exact key _ _ rfl h
 
 end Bng.Dhcp4
